@@ -4,6 +4,7 @@ CONSTANTS
   BlankStops = TRUE
   EndEmptyRaises = TRUE
   GluedKeepsWater = TRUE
+  EmptyModelContinues = TRUE
   DropWaterChoices = {FALSE, TRUE}
   Emit = FALSE
 INVARIANT AllIngested
